@@ -47,12 +47,28 @@ def Buf.addStr (b : Buf) (s : Bytes) : Buf := { b with rev := s.reverse ++ b.rev
 def Buf.addOne (b : Buf) (s : Style) (normal compressed : Bytes) : Buf :=
   b.addStr (match s with | .compressed => compressed | .expanded => normal)
 
-/-- `Format::get_indent(len)`: a newline followed by `len` spaces, unless compressed.
-(Since 0a71721 the Rust builds the string when `len > 80` instead of slicing out of bounds.) -/
+/-- the preallocated `INDENT` constant of `Format::get_indent`: a newline and 80 spaces -/
+def indentTable : Bytes := 10 :: List.replicate 80 32
+
+/-- `Format::get_indent(len)`, branch by branch: compressed → `""` (before anything else, so in
+*every* case); else the slice `INDENT[..=len]` when `len` is within the 80 preallocated columns;
+else (0a71721) the string is built: a newline and `len` spaces. -/
 def getIndent (s : Style) (len : Nat) : Bytes :=
-  match s with
-  | .compressed => []
-  | .expanded => 10 :: List.replicate len 32
+  if s.isCompressed then []
+  else if len + 1 ≤ indentTable.length then indentTable.take (len + 1)
+  else 10 :: List.replicate len 32
+
+theorem getIndent_compressed (len : Nat) : getIndent .compressed len = [] := rfl
+
+/-- both expanded branches give a newline followed by `len` spaces -/
+theorem getIndent_expanded (len : Nat) : getIndent .expanded len = 10 :: List.replicate len 32 := by
+  unfold getIndent indentTable
+  simp only [Style.isCompressed, Bool.false_eq_true, if_false, List.length_cons, List.length_replicate]
+  split
+  · next h =>
+    rw [List.take_succ_cons, List.take_replicate]
+    congr 2; omega
+  · rfl
 
 /-- `CssBuf::do_indent` -/
 def Buf.doIndent (b : Buf) (s : Style) : Buf := b.addStr (getIndent s b.indent)
